@@ -171,9 +171,35 @@ def typenum_value(tystr):
     return v
 
 
-def short(key, n=160):
-    """Shorten an instance key for messages (drop crate-qualified generic noise)."""
-    s = key
-    s = re.sub(r"typenum::uint::UInt<[^>]*(?:<[^>]*>)*[^>]*>", lambda m: "U%s" % typenum_value(m.group(0)), s)
+def abbrev(s):
+    """Replace typenum unsigned types by U<n> (bracket matching) and drop noisy crate paths."""
+    out = []
+    i = 0
+    tag = "typenum::uint::UInt<"
+    while True:
+        j = s.find(tag, i)
+        if j < 0:
+            out.append(s[i:])
+            break
+        out.append(s[i:j])
+        depth = 0
+        k = j + len(tag) - 1
+        while k < len(s):
+            if s[k] == "<":
+                depth += 1
+            elif s[k] == ">":
+                depth -= 1
+                if depth == 0:
+                    break
+            k += 1
+        out.append("U%s" % typenum_value(s[j:k + 1]))
+        i = k + 1
+    r = "".join(out)
+    return r
+
+
+def short(key, n=200):
+    """Shorten an instance key for messages."""
+    s = abbrev(key)
     s = s.replace("ppv_lite86::x86_64::", "").replace("ppv_lite86::", "").replace("core::ops::", "")
     return s if len(s) <= n else s[: n - 3] + "..."
